@@ -144,16 +144,25 @@ def run(ctx):
         sj, sv = L.pretouch_outcome_sets(hb, d, ctx.seed, n, cid, extra)
         aj, av = sj.get(key, set()), sv.get(key, set())
         norm = lambda a: set(("err",) if x[0] != "ok" else tuple(x) for x in a)
-        kf = "KF-C12-pretouch-pv-order"
-        if aj and norm(aj) == norm(av) and len(aj) > 1 and kf in known:
-            st["known"] += 1
-            seen_known.setdefault(kf, cid)
-            continue
+        # (a set with more than one outcome was the finding repaired by dbc1720: now a violation like any other difference)
         viol.append(("pretouch", cid, "after Pretouch with compile options (EncOnlyOmitNull/MaxInlineDepth/RecursiveDepth = %s) JIT and interpreter differ: jit %s / vm %s "
                      "(distinct outcomes over 48 repetitions: jit %d, vm %d, common %d)"
                      % (key[2:], L.show(rj), L.show(rv), len(aj), len(av), len(norm(aj) & norm(av))),
                      dict(L.case_lines(d, cid), pretouch=key[2:], jit=rj[:2], vm=(rv or ["missing"])[:2], features=sorted(feats),
                           jit_outcomes=len(aj), vm_outcomes=len(av))))
+    # regression cases of dbc1720: exactly one outcome per Pretouch scenario, the same in both back ends, over 48 repetitions
+    st["pretouch_regression"] = 0
+    for cid in [x for x in feat if x.startswith("w-pretouch-")]:
+        sj, sv = L.pretouch_outcome_sets(hb, d, ctx.seed, n, cid, extra)
+        for key in sorted(set(sj) | set(sv)):
+            st["pretouch_regression"] += 1
+            aj, av = sj.get(key, set()), sv.get(key, set())
+            if len(aj) != 1 or aj != av:
+                viol.append(("pretouch", cid, "Pretouch scenario %s of %s: the outcome must be unique and the same in both back ends over 48 repetitions; distinct outcomes: jit %d %s / vm %d %s"
+                             % (key[2:], cid, len(aj), [L.show(list(x))[:160] for x in sorted(aj)][:3], len(av), [L.show(list(x))[:160] for x in sorted(av)][:3]),
+                             dict(L.case_lines(d, cid), pretouch=key[2:], jit_outcomes=len(aj), vm_outcomes=len(av), features=sorted(feat[cid][1]))))
+        if not sj and not sv and not only:
+            problems.append(("T", "regression case %s produced no Pretouch outcome sets" % cid))
     for cid, key, rj, rv, feats in pending_q[12:]:
         viol.append(("pretouch", cid, "after Pretouch with compile options (%s) JIT and interpreter differ (not re-examined: more than 12 such cases): jit %s / vm %s"
                      % (key[2:], L.show(rj), L.show(rv)),
